@@ -95,3 +95,38 @@ contract(
              "result == pycomm3.cip.status_info.SERVICE_STATUS[s] if s in pycomm3.cip.status_info.SERVICE_STATUS "
              "else spec.tables.hex2(s) in result"],
     props=["C19", "C13"])
+
+# frame condition: a lookup in one table does not depend on lookups made before in ANOTHER table
+# (every pair of tables that share a member name or a code; the shared key is looked up in the first, then in the second)
+def _shared():
+    tabs = sorted(_tables().items())
+    out = []
+    for i, (pa, ta) in enumerate(tabs):
+        for pb, tb in tabs:
+            if pa == pb:
+                continue
+            names = [n for n in _members(ta) if n in _members(tb)]
+            for n in names[:2]:
+                out.append((pa, pb, "name", n))
+            if vars(ta).get("_bidirectional_", True) and vars(tb).get("_bidirectional_", True):
+                ka = {_keyrepr(ta, vars(ta)[n]): n for n in _members(ta)}
+                kb = {_keyrepr(tb, vars(tb)[n]): n for n in _members(tb)}
+                for k in sorted(set(ka) & set(kb))[:2]:
+                    out.append((pa, pb, "code", (ka[k], kb[k])))
+    return out
+
+
+for _pa, _pb, _kind, _what in _shared():
+    _sa, _sb = _pa.split(".")[-1], _pb.split(".")[-1]
+    if _kind == "name":
+        contract(
+            id=f"table.cross.{_sa}.{_sb}.name.{_what}", func=M + "__getitem__", call=f"{_pb}[{_what!r}]",
+            setup=[f"first = ({_pa}[{_what!r}], {_pa}.get({_what!r}))"],
+            ensures=[f"result == spec.tables.declared({_pb}, {_what!r})", f"{_pb}.get({_what!r}) == result"], props=["C19"])
+    else:
+        _ka = f"spec.tables.value_key({_pa}, spec.tables.declared({_pa}, {_what[0]!r}))"
+        _kb = f"spec.tables.value_key({_pb}, spec.tables.declared({_pb}, {_what[1]!r}))"
+        contract(
+            id=f"table.cross.{_sa}.{_sb}.code.{_what[1]}", func=M + "__getitem__", call=f"{_pb}[{_kb}]",
+            setup=[f"first = ({_pa}[{_ka}], {_pa}.get({_ka}))"],
+            ensures=[f"spec.tables.is_member_with_key({_pb}, result, {_kb})", f"{_pb}.get({_kb}) == result"], props=["C19"])
